@@ -5,6 +5,8 @@ from props import _generic as g
 def run(ctx):
     fns = g.run_pyvc(ctx, "C06")
     res = ctx.cvc(["II", "IO", "OO"] if ctx.tier == "quick" else ["II", "IO", "OO", "LF", "QQ", "OI"], ["F-STATE"], functions=["bucket_getstate"])
+    res2 = ctx.cvc(["OO"], ["F-STATE"], functions=["_bucket_setstate"])
+    replay.replay_fstate(ctx, res2)
     from lib import replay
     replay.replay_fstate(ctx, res)
     ctx.standin("pickle_rt", families=tuple("OO,II,LF,fs".split(",")))
@@ -17,5 +19,8 @@ def run(ctx):
         "carries its own typing obligation. Engine C, F-STATE: the C bucket_getstate from its real body (both loops cut at "
         "invariants) emits exactly the documented tuple for every length and content: 2*len resp. len items, item 2j the object of "
         "keys[j] and item 2j+1 the object of values[j] (resp. item j the object of keys[j]), (items, next) iff there is a successor, "
-        "every PyTuple_SET_ITEM inside the tuple. pickle/copy, byte identity between C and Python, C __setstate__ and the C tree "
-        "state code are outside both engines: bounded stand-in pickle_rt." % (len(fns), ", ".join(fns)))
+        "every PyTuple_SET_ITEM inside the tuple; _bucket_setstate of the object-keyed unit reads that tuple back (len' == len(items)/2, "
+        "entry j is (items[2j], items[2j+1]), the successor is taken over, every item read inside the tuple, vectors only grown) - "
+        "together the C round trip of a leaf; the integer units' conversions inside setstate are F-CONV's sites (C13). "
+        "pickle/copy, byte identity between C and Python, set / tree state code of the C side are outside both engines: "
+        "bounded stand-in pickle_rt." % (len(fns), ", ".join(fns)))
